@@ -86,7 +86,7 @@ func die(code int, format string, args ...any) {
 
 var variants = map[string]string{
 	"stock": "",
-	"small": "segmentSize=4,localQueueCap=4,globalQueueInitialCap=2,contextPoolSize=2,remoteSendCoalescingMaxBatch=4",
+	"small": "segmentSize=4,localQueueCap=4,globalQueueInitialCap=2,contextPoolSize=2,remoteSendCoalescingMaxBatch=4,defaultInitialDemand=8,defaultRefillThreshold=2",
 }
 
 var goaktPkgs = []string{
